@@ -33,7 +33,7 @@ from harness.common import exc_name
 PID = "C04"
 TITLE = "Context non-interference between Split branches and across accumulators"
 LEAN_MODULES = ["LenaModel.Props.C04"]
-LEAN_SOURCES = ["LenaModel/Model/C04.lean", "LenaModel/Lemmas/C04.lean", "LenaModel/Lemmas/C04Alone.lean",
+LEAN_SOURCES = ["LenaModel/Model/C04.lean", "LenaModel/Model/C04Spec.lean", "LenaModel/Lemmas/C04.lean", "LenaModel/Lemmas/C04Alone.lean",
                 "LenaModel/Lemmas/C04Local.lean", "LenaModel/Lemmas/C04Fill.lean", "LenaModel/Props/C04.lean"]
 DRIVER = "drivers/C04.lean"
 THEOREMS = [
@@ -48,6 +48,11 @@ THEOREMS = [
     "Lena.C04.accOps_freshYield",
     "Lena.C04.acc_yield_fresh",
     "Lena.C04.split_compute_fresh",
+    "Lena.C04.zip_compute_fresh",
+    "Lena.C04.store_yields_what_was_filled",
+    "Lena.C04.storeGroup_yields_what_was_filled",
+    "Lena.C04.groupBy_yields_internal",
+    "Lena.C04.empty_split_yields_flow",
 ]
 TRUSTED = [
     "Lean 4.33.0 kernel; axioms limited to propext, Classical.choice, Quot.sound (audited by #print axioms on every run)",
@@ -173,6 +178,19 @@ class SetData(object):
         return value
 
 
+class EndMark(object):
+    """user Run element: passes the values on and yields one more, new value at the end of every run."""
+
+    def __init__(self):
+        self._runs = 0
+
+    def run(self, flow):
+        for val in flow:
+            yield val
+        yield (-1, {"end": self._runs})
+        self._runs += 1
+
+
 class KeepLast(object):
     """user fill/compute element that yields the last filled value itself."""
 
@@ -234,6 +252,23 @@ class SrcEl(object):
             yield (j, {"src": j})
 
 
+class Probe(object):
+    """first element of a branch: passes values unchanged and records, for every value the branch receives, whether
+    its mutable root objects are the caller's originals (False), new objects (True), or whether it has none (None)"""
+
+    def __init__(self, i, rec, orig_ids):
+        self._i, self._rec, self._orig = i, rec, orig_ids
+
+    def __call__(self, value):
+        d, c = split_value(value)
+        roots = [x for x in (d, c) if isinstance(x, (dict, list))]
+        if not roots:
+            self._rec[self._i].append(None)
+        else:
+            self._rec[self._i].append(id(roots[0]) not in self._orig)
+        return value
+
+
 class Mark(object):
     """passes values unchanged (the same object); records which branch produced the next yielded value and
     a deep snapshot of it at that moment."""
@@ -274,10 +309,12 @@ def build_step(s, in_fill):
         return lena.core.FillInto(c) if in_fill else c
     if k == "stop":
         return lena.flow.Slice(s["n"])
+    if k == "emit":
+        return EndMark()
     raise ValueError(k)
 
 
-def build_acc(a):
+def build_acc(a, heap=None):
     import lena.core
     import lena.flow
     import lena.math
@@ -313,6 +350,8 @@ def build_acc(a):
         return lena.structures.SplitIntoBins(lena.math.Sum(), lena.variables.Variable(a["var"], lambda x: x),
                                              list(range(a["lo"], a["hi"] + 1)))
     if k == "graph":
+        if a.get("ctx") is not None:
+            return lena.structures.Graph(context=heap[a["ctx"]])
         return lena.structures.Graph()
     if k == "store":
         return lena.flow.StoreFilled(yield_as_a_group=False)
@@ -328,6 +367,8 @@ def build_acc(a):
         return ReqStore()
     # composites
     if k == "zip":
+        if a.get("fields"):
+            return lena.flow.Zip([build_acc(x) for x in a["subs"]], name="zipped", fields=a["fields"])
         return lena.flow.Zip([build_acc(x) for x in a["subs"]])
     if k == "split_fc":
         return lena.core.Split([build_acc(x) for x in a["subs"]])
@@ -368,20 +409,27 @@ def model_acc(a):
     return a
 
 
-def build_branch(i, sp, log):
+def build_branch(i, sp, log, probe=None):
+    """the branch as it is given to Split/Zip: an explicit sequence object, or (form "tuple") a plain tuple of
+    elements that _get_seq_with_type converts itself"""
     import lena.core
     kind = sp["kind"]
     mark = Mark(i, log)
+    front = [probe] if probe is not None else []
+    as_tuple = sp.get("form") == "tuple"
     if kind == "source":
         return lena.core.Source(SrcEl(sp.get("n", 0)), mark)
     if kind == "seq":
-        return lena.core.Sequence(*([build_step(s, False) for s in sp["steps"]] + [mark]))
-    steps = [build_step(s, True) for s in sp["steps"]]
+        els = front + [build_step(s, False) for s in sp["steps"]] + [mark]
+        return tuple(els) if as_tuple else lena.core.Sequence(*els)
+    steps = front + [build_step(s, True) for s in sp["steps"]]
+    els = steps + [build_acc(sp["term"]), mark]
+    if as_tuple:
+        return tuple(els)
     if kind == "fc":
-        return lena.core.FillComputeSeq(*(steps + [build_acc(sp["term"]), mark]))
+        return lena.core.FillComputeSeq(*els)
     if kind == "fr":
-        return lena.core.FillRequestSeq(*(steps + [build_acc(sp["term"]), mark]), bufsize=1, reset=False,
-                                        buffer_input=True)
+        return lena.core.FillRequestSeq(*els, bufsize=1, reset=False, buffer_input=True)
     raise ValueError(kind)
 
 
@@ -451,7 +499,7 @@ class Renderer(object):
         return self.num[id(obj)]
 
     def data(self, d):
-        if isinstance(d, list):
+        if isinstance(d, (list, dict)):
             return {"cell": self.tok(d), "v": enc(d)}
         if self.data_opaque is not None:
             return self.data_opaque(d)
@@ -558,6 +606,9 @@ def _alone(case, i, nvals):
     if mode == "run":
         outs = list(lena.core.Split([br], bufsize=case["bufsize"], copy_buf=case["copy_buf"]).run(iter(flow)))
     else:
+        if isinstance(br, tuple):
+            import lena.core.split
+            br = lena.core.split._get_seq_with_type(br, case["bufsize"])[0]
         for v in flow:
             try:
                 br.fill(v)
@@ -571,12 +622,21 @@ def run_split(case):
     heap = build_heap(case)
     flow = [build_item(heap, it) for it in case["flow"]]
     log = []
+    orig_ids = set()
+    for v in flow:
+        d, c = split_value(v)
+        for x in (d, c):
+            if isinstance(x, (dict, list)):
+                orig_ids.add(id(x))
+    fills = [[] for _ in case["branches"]]
     try:
-        branches = [build_branch(i, sp, log) for i, sp in enumerate(case["branches"])]
+        branches = [build_branch(i, sp, log, Probe(i, fills, orig_ids)) for i, sp in enumerate(case["branches"])]
         outs, stopped = _drive(case, branches, flow, log)
     except Exception as e:
         return {"e": exc_name(e), "msg": str(e)[:200]}
-    if len(log) != len(outs):
+    if not case["branches"]:
+        log = []
+    elif len(log) != len(outs):
         return {"e": "harness", "msg": "marks %d outs %d" % (len(log), len(outs))}
     r = Renderer()
     res = {"flow": [r.item(v) for v in flow], "outs": [r.item(v) for v in outs], "stopped": stopped,
@@ -595,7 +655,7 @@ def run_split(case):
         for j in range(i + 1, nb):
             if ids[i] & ids[j]:
                 shared.append([i, j])
-    res["per_yield"], res["per_end"], res["shared"] = per_yield, per_end, shared
+    res["per_yield"], res["per_end"], res["shared"], res["fills"] = per_yield, per_end, shared, fills
     if case["copy_buf"] and not case.get("aliased"):
         counts = [len(flow)] * nb if case["mode"] == "run" else fill_counts(case)
         alone = []
@@ -670,9 +730,9 @@ def _exec_history(case, aggressive):
     correspondence); True: additionally every yielded context is mutated in place right after its compute();
     False: the twin — same operations except that nothing yielded is ever mutated."""
     import lena.core
-    acc = build_acc(case["acc"])
-    kind = acc_kind(case["acc"])
     heap = build_heap(case)
+    acc = build_acc(case["acc"], heap)
+    kind = acc_kind(case["acc"])
     filled, outs, evs = [], [], []
     problems, spec_problems = [], []
     for op in case["hist"]:
@@ -796,7 +856,7 @@ def run_impl(case):
 
 def model_requests(case):
     if case["op"] == "split":
-        return [{k: case[k] for k in ("op", "mode", "branches", "bufsize", "copy_buf", "heap", "flow")}]
+        return [dict({k: case[k] for k in ("op", "mode", "branches", "bufsize", "copy_buf", "heap", "flow")}, check=True)]
     if case["acc"]["a"] in ORACLE_ONLY:
         return []
     return [{"op": "acc", "acc": model_acc(case["acc"]), "heap": case["heap"], "hist": case["hist"]}]
@@ -819,6 +879,23 @@ def compare(case, res, replies):
         for key in ("flow", "outs", "stopped"):
             if res[key] != m[key]:
                 return "object graph differs in %r: impl %s vs model %s" % (key, _diff(res[key], m[key]), "")
+        # the specification-side definitions executed by the driver against the real run
+        chk = m.get("check")
+        if chk:
+            for i, cb in enumerate(chk["branches"]):
+                if cb["fills"] != res["fills"][i]:
+                    return ("branch %d: the model's fill/run events say copies %s, the probe in the real run saw %s"
+                            % (i, cb["fills"], res["fills"][i]))
+            if case["copy_buf"] and not case.get("aliased"):
+                if not chk["disjoint"]:
+                    return "Lean: the hand events of the model trace are not pairwise disjoint (handCells/Disj)"
+                for i, cb in enumerate(chk["branches"]):
+                    if not cb["proj_eq"]:
+                        return "Lean: proj %d (trace) differs from aloneTrace / aloneFillLife on the schedule of its hand events" % i
+                    if cb["alone"] is not None and "alone" in res and not isinstance(res["alone"][i], dict):
+                        if cb["alone"] != model_floats(res["alone"][i][0]) and model_floats(cb["alone"]) != res["alone"][i][0]:
+                            return ("branch %d: aloneTrace (Lean) yields %s, the real branch alone yields %s"
+                                    % (i, str(cb["alone"])[:300], str(res["alone"][i][0])[:300]))
         return None
     kind = acc_kind(case["acc"])
     if res["fill_errs"]:
@@ -831,6 +908,15 @@ def compare(case, res, replies):
     a, b = res["outs"], m["outs"]
     if a != b:
         return "yielded values differ: %s" % _diff(a, b)
+    top = case["acc"]["a"]
+    if m.get("runhist_ok") is False:
+        return "Lean: runHist differs from the step-by-step execution of the history"
+    if kind not in ALIASING_BY_SPEC and top != "split_fc" and not m.get("fresh_ok"):
+        return "Lean: an invocation of the model accumulator violates its FreshYield instance"
+    if top not in ("zip", "split_fc") and not m.get("local_ok"):
+        return "Lean: an invocation of the model accumulator violates its Local instance (refs_sub / frame)"
+    if m.get("fillall") is not None and m["fillall"] != m["outs_cells"]:
+        return "Lean: fillAll + compute differs from the step-by-step execution"
     return None
 
 
@@ -897,12 +983,16 @@ NAMES = ["a", "b", "c"]
 
 
 def gen_step(rng, kind, last):
-    ks = ["var", "upd", "mkfn", "tag", "app"]
+    ks = ["var", "upd", "mkfn", "tag", "app", "setd"]
     if kind in ("fc", "fr"):
         ks += ["count", "stop"]
     elif last:
-        ks += ["count"]
+        ks += ["count", "emit"]
     k = rng.choice(ks)
+    if k == "emit":
+        return {"s": "emit"}
+    if k == "setd":
+        return {"s": "setd", "key": rng.choice(NAMES), "v": rng.randint(0, 3)}
     if k in ("var", "mkfn", "tag", "count"):
         return {"s": k, "name": rng.choice(NAMES)}
     if k == "upd":
@@ -925,7 +1015,12 @@ def gen_branch(rng, kind=None, nsteps=None, lists=False):
                           + [{"a": "count", "name": rng.choice(NAMES)}, {"a": "store"}, {"a": "keeplast"}])
     elif kind == "fr":
         term = rng.choice([{"a": "reqsum"}, {"a": "reqstore"}])
-    return {"kind": kind, "steps": steps, "term": term}
+    sp = {"kind": kind, "steps": steps, "term": term}
+    # given to Split as a plain tuple of elements (a tuple with a Count element would be taken for a
+    # fill/compute sequence, so a plain sequence with Count stays explicit)
+    if rng.random() < 0.25 and not (kind == "seq" and any(st["s"] == "count" for st in steps)):
+        sp["form"] = "tuple"
+    return sp
 
 
 def gen_ctx(rng, i):
@@ -945,20 +1040,22 @@ def gen_ctx(rng, i):
 
 def gen_flow(rng, n, aliased=False, int_only=False):
     heap, flow = {}, []
+    datacells = set()
     k = 0
     for i in range(n):
         it = {"d": i, "c": None}
         if not int_only and rng.random() < 0.25:
             if aliased and k and rng.random() < 0.4:
-                cands = [t for t, v in heap.items() if isinstance(v, list)]
+                cands = sorted(datacells)
                 if cands:
                     it["d"] = {"cell": int(rng.choice(cands))}
             if not isinstance(it["d"], dict):
-                heap[str(k)] = [i]
+                heap[str(k)] = [i] if rng.random() < 0.6 else enc({"x": i})
+                datacells.add(str(k))
                 it["d"] = {"cell": k}
                 k += 1
         if rng.random() < 0.8:
-            cands = [t for t, v in heap.items() if isinstance(v, dict) and "d" in v]
+            cands = [t for t, v in heap.items() if isinstance(v, dict) and "d" in v and t not in datacells]
             if aliased and cands and rng.random() < 0.5:
                 it["c"] = int(rng.choice(cands))
             else:
@@ -976,7 +1073,7 @@ def gen_split_case(rng, mode=None, aliased=None, copy_buf=None):
     heap, flow = gen_flow(rng, n, aliased, int_only=rng.random() < 0.5)
     lists = any(isinstance(it["d"], dict) for it in flow)
     if mode == "run":
-        nb = rng.randint(1, 4)
+        nb = rng.randint(1, 4) if rng.random() < 0.98 else 0
         branches = [gen_branch(rng, lists=lists) for _ in range(nb)]
     else:
         kind = rng.choice(["fc", "fc", "fr"])
@@ -1001,6 +1098,7 @@ ACC_KINDS = [
     {"a": "store"}, {"a": "store_group"}, {"a": "groupby", "key": "g"}, {"a": "keeplast"},
     {"a": "zip", "subs": [_SUM, _CNT]}, {"a": "zip", "subs": [_SUM, _SUM]}, {"a": "zip", "subs": [_CNT, _MEAN, {"a": "histogram"}]},
     {"a": "zip", "subs": [_MEAN]}, {"a": "zip", "subs": [{"a": "reqsum"}, {"a": "reqsum"}]},
+    {"a": "zip", "subs": [_SUM, _CNT], "fields": ["s", "c"]}, {"a": "graph", "ctx": 90},
     {"a": "fcseq", "steps": [{"s": "var", "name": "v"}], "term": _SUM},
     {"a": "fcseq", "steps": [{"s": "tag", "name": "a"}, {"s": "count", "name": "c"}], "term": _CNT},
     {"a": "fillcompute", "of": _MEAN}, {"a": "fillcompute", "of": {"a": "histogram"}},
@@ -1023,6 +1121,8 @@ def _acc_ctx(rng, kind, i):
 
 
 def _can_reset(acc):
+    if acc["a"] == "zip":
+        return all(x["a"] == "reqsum" for x in acc["subs"])
     return acc["a"] in HAS_RESET or (acc["a"] == "mean" and not isinstance(acc["seq"], dict))
 
 
@@ -1057,6 +1157,8 @@ def gen_acc_case(rng, acc=None, nops=None):
         else:
             hist.append({"c": 1})
             nc += 1
+    if acc.get("ctx") is not None:
+        heap[str(acc["ctx"])] = enc({"init": {"i": 1}})
     return {"op": "acc", "acc": acc, "heap": heap, "hist": hist, "may_raise": False}
 
 
@@ -1109,6 +1211,8 @@ def gen_cases(ctx):
         rs = _can_reset(acc)
         for word in enum_acc_histories(maxlen - 1 if (rs or acc in ORACLE_ONLY_KINDS) else maxlen, rs):
             heap, hist = hist_of_word(acc_kind(acc), word)
+            if acc.get("ctx") is not None:
+                heap[str(acc["ctx"])] = enc({"init": {"i": 1}})
             yield {"op": "acc", "acc": acc, "heap": heap, "hist": hist, "may_raise": False}
     n_split = 120000 if thorough else 3000
     n_acc = 60000 if thorough else 2000
